@@ -57,13 +57,20 @@ func (inst *InstAlloca) String() string {
 
 // Type returns the type of the instruction.
 func (inst *InstAlloca) Type() types.Type {
-	// Cache type if not present. The address space may be set after the type
-	// has been cached (the constructor and the parser both cache the type
-	// first); a cached type of another address space is replaced (not edited:
-	// it may be shared).
-	if inst.Typ == nil || inst.Typ.AddrSpace != inst.AddrSpace {
+	// Cache type if not present.
+	if inst.Typ == nil {
 		inst.Typ = types.NewPointer(inst.ElemType)
 		inst.Typ.AddrSpace = inst.AddrSpace
+	}
+	// The address space may be set after the type has been cached (the
+	// constructor and the parser both cache the type first). A cached type of
+	// another address space is neither edited (it may be shared) nor replaced
+	// (the type is queried while printing, possibly from several goroutines at
+	// once): the type is computed anew.
+	if inst.Typ.AddrSpace != inst.AddrSpace {
+		typ := types.NewPointer(inst.ElemType)
+		typ.AddrSpace = inst.AddrSpace
+		return typ
 	}
 	return inst.Typ
 }
